@@ -8,3 +8,6 @@ import DoviModel.Props.C06
 import DoviModel.Props.C07
 import DoviModel.Props.C08
 import DoviModel.Props.C18
+import DoviModel.Props.C03
+import DoviModel.Props.C04
+import DoviModel.Props.C12
